@@ -4,10 +4,9 @@ copied source files).  kani_run.py [harness ...] -> JSON on stdout."""
 import json, os, re, shutil, subprocess, sys, tempfile, time
 HERE = os.path.dirname(os.path.abspath(__file__))
 ROOT = os.path.dirname(HERE)
-# vertex_format_shape is kept in harness.rs but not run: CBMC did not finish in 20 min (the todo!() panic paths with
-# formatting dominate, as the design round found for every module-level function); the Verus proof of vertex_format is
-# fully symbolic and complete on its own.
-HARNESSES = {'naga_stages_bits': 'C03', 'location_target_count_value': 'C14'}
+# vertex_format_shape: the argument is wrapped in ManuallyDrop - the drop glue of naga::TypeInner (struct members, names) was
+# what made CBMC run for more than 20 minutes; without it the harness takes well under a minute (126 checks).
+HARNESSES = {'naga_stages_bits': 'C03', 'location_target_count_value': 'C14', 'vertex_format_shape': 'C07'}
 
 
 def run(names=None, src_root='/repo'):
